@@ -10,7 +10,7 @@ for seed in 1 7; do
   for gmp in 1 4 16; do
     for r in $(seq $reps); do
       k=$((k+1))
-      ( GOMAXPROCS=$gmp $bin trace -prop $prop -engine $eng -seed $seed -from 0 -to $runs -v > $tmp/s$seed.g$gmp.r$r.log 2>&1 ) &
+      ( GOMAXPROCS=$gmp $bin trace -prop $prop -engine $eng -seed $seed -from 0 -to $runs -v 2>&1 | grep -v "^  ~ " > $tmp/s$seed.g$gmp.r$r.log ) &
     done
   done
   wait
